@@ -72,7 +72,7 @@ pub struct Alphabet {
 }
 
 impl Alphabet {
-    fn full() -> Self {
+    pub fn full() -> Self {
         Alphabet { names: store::names(2), keys: key_alphabet(), all_keys: key_alphabet(), probes: prefix_probes(), vals: 2 }
     }
     /// keys restricted to the given indices of the full alphabet (queries still probe all keys)
@@ -136,7 +136,7 @@ type W = (u8, u8, Option<u8>);
 #[derive(Clone)]
 pub struct Sim {
     stored: bool,
-    cur: Model,
+    pub cur: Model,
     base: Model,
     open_at: OpenAt,
     groups: Vec<Vec<W>>,
@@ -148,10 +148,10 @@ pub struct Sim {
 }
 
 impl Sim {
-    fn new() -> Self {
+    pub fn new() -> Self {
         Sim { stored: false, cur: Model::new(), base: Model::new(), open_at: OpenAt::Fresh, groups: vec![], snaps: vec![], pending: vec![], last_snaps: vec![], segments: 0, shadowing_deletes: 0 }
     }
-    fn apply(&mut self, a: &Alphabet, op: &Op) {
+    pub fn apply(&mut self, a: &Alphabet, op: &Op) {
         match *op {
             Op::Ins(n, k, v) => {
                 self.cur.insert((a.names[n as usize].clone(), a.keys[k as usize].clone()), val_bytes(v));
@@ -221,9 +221,9 @@ struct Last {
 }
 
 pub struct Driver<SP: StorageProvider> {
-    sp: SP,
-    gid: Option<GraphId>,
-    persp: Option<SP::Perspective>,
+    pub sp: SP,
+    pub gid: Option<GraphId>,
+    pub persp: Option<SP::Perspective>,
     counter: u64,
     last: Option<Last>,
     tag: &'static str,
@@ -240,7 +240,7 @@ impl<SP: StorageProvider> Driver<SP> {
         Location::new(l.seg, MaxCut::new(l.first_mc + l.n as u64 - 1))
     }
 
-    fn apply(&mut self, a: &Alphabet, op: &Op) -> Result<(), String> {
+    pub fn apply(&mut self, a: &Alphabet, op: &Op) -> Result<(), String> {
         let tag = self.tag;
         let e = |what: &str, e: &dyn std::fmt::Debug| format!("[{tag}] {what} failed: {e:?}");
         match *op {
@@ -310,12 +310,12 @@ impl<SP: StorageProvider> Driver<SP> {
         }
     }
 
-    fn check_persp(&self, a: &Alphabet, model: &Model, qs: &mut QueryStats) -> Result<(), String> {
+    pub fn check_persp(&self, a: &Alphabet, model: &Model, qs: &mut QueryStats) -> Result<(), String> {
         check_queries(self.persp.as_ref().unwrap(), model, &a.names, &a.all_keys, &a.probes, &format!("[{}] in-flight perspective", self.tag), qs)
     }
 
     /// Everything committed by the last `seg`, at every command of that segment.
-    fn check_committed(&mut self, a: &Alphabet, snaps: &[Model], qs: &mut QueryStats) -> Result<(), String> {
+    pub fn check_committed(&mut self, a: &Alphabet, snaps: &[Model], qs: &mut QueryStats) -> Result<(), String> {
         let tag = self.tag;
         let Some(l) = self.last.as_ref() else { return Ok(()) };
         if snaps.len() != l.n {
